@@ -1,15 +1,47 @@
-"""C01 -- composite tree: TLC exhaustive run, replay of every explored edge on real objects, trace validation."""
+"""C01 -- composite tree: TLC exhaustive run, replay of every explored edge on real objects, trace validation.
+
+Four families share spec/tree/CompositeTree.tla (constants in spec/tree/*.cfg, written by harness/gen_c01_cfgs.py):
+  generic  plain Composite objects, one grid each
+  typed    HexAssembly > HexBlock > Circle
+  pins     the same with pin lattices on the blocks and a component GROUP (a plain Composite of components) below a block
+  reactor  Reactor > {Core, SpentFuelPool} > HexAssembly > HexBlock with the reactor-level edits (Core.add / removeAssembly,
+           two assemblies trading places, sortAssemsByRing, copies of the reactor / the core) and the reactor's own references
+           (r.core, r.excore) and the Core's block / assembly traversals as extra observables
+
+Aliasing law (Obs.stable in the spec): project() asks every query, EMPTIES every list a query handed out, and asks every
+query again; the second set of answers is what is compared with the specification, and "stable" says whether the two sets agree.
+
+Already-owned objects (B2): AddAttached / InsertAttached have three outcomes in the emission graph -- "moved" and "refused" are
+the ones the specification allows, "stale" is the known deviation of armi written down for classification only (module header of
+CompositeTree.tla).  One (state, call) group is executed once per outcome it is compared with: conforming to an allowed outcome
+is no finding; matching "stale" exactly is reported under ONE key per action and family (replay:<fam>:<Action>:stale); anything
+else is reported under the field that differs (so another failure of the same call is not hidden by the known one).  A stale
+state is terminal in the spec; the random drivers put such a call only at the END of a history for the same reason.
+"""
 import copy
 import json
 import os
 import pickle
 import random
+import re
+from concurrent.futures import ThreadPoolExecutor
 
 from harness import common, tlc, tracecheck
 from harness import replay as rp
 from harness.armi_env import armi_ready
 
 MODDIR = os.path.join(common.SPEC, "tree")
+ATTACHED = ("AddAttached", "InsertAttached")
+
+
+def cfg_constants(cfg):
+    """the CONSTANTS line of a configuration file (the adapters are built for the universe TLC explores)"""
+    with open(os.path.join(MODDIR, cfg)) as f:
+        text = f.read()
+    out = {}
+    for k, v in re.findall(r"(\w+) = (\w+)", text[text.index("CONSTANTS"):].split("\n")[0]):
+        out[k] = {"TRUE": True, "FALSE": False}.get(v, int(v) if v.isdigit() else v)
+    return out
 
 
 # ------------------------------------------------------------------------------------------------------------
@@ -19,9 +51,9 @@ class GenericAdapter:
     name = "generic"
     typed = False
     blkgrid = False
-    NBLK = 0
+    rx = False
 
-    def __init__(self):
+    def __init__(self, consts=None):
         armi_ready()
         from armi.reactor import composites, grids
         from armi.reactor.flags import Flags
@@ -29,6 +61,12 @@ class GenericAdapter:
         self.composites, self.grids, self.Flags = composites, grids, Flags
         self.Node = _node_class()
         self.A, self.B = Flags.FUEL, Flags.CLAD
+        c = consts or {}
+        self.consts = dict(c)
+        self.NBLK = c.get("NBlk", 2 if self.typed else 0)
+        self.NGRP = c.get("NGrp", 0)
+        self.NASM = c.get("NAsm", 0)
+        self.N = c.get("N", 8)
 
     # -- static attributes as the spec defines them ----------------------------------------------------
     def flags_of(self, o):
@@ -38,6 +76,14 @@ class GenericAdapter:
         if (o // 2) % 2 == 1:
             f |= self.B
         return f
+
+    def kind(self, o):
+        """Kind(n) of the specification, by original id"""
+        if self.rx:
+            return "rx" if o == 1 else "core" if o == 2 else "sfp" if o == 3 else "asm" if o <= 3 + self.NASM else "blk"
+        if not self.typed:
+            return "gen"
+        return "asm" if o == 1 else "blk" if o <= 1 + self.NBLK else "grp" if o <= 1 + self.NBLK + self.NGRP else "cmp"
 
     def owns_grid(self, o):
         return True
@@ -75,12 +121,30 @@ class GenericAdapter:
                     O[a["c"]].moveTo(O[a["p"]].spatialGrid[a["i"], 0, 0])
             elif n == "InsertPresent":
                 O[a["p"]].insert(0, O[a["c"]])
+            elif n in ATTACHED:
+                # the object is still listed by another parent.  Only an exception raised by add/insert itself counts as
+                # a refusal; the placement that follows in the generic family is outside the try (a silent no-op is no refusal)
+                try:
+                    if n == "AddAttached":
+                        O[a["p"]].add(O[a["c"]])
+                    else:
+                        O[a["p"]].insert(a["k"], O[a["c"]])
+                    refused = False
+                except (RuntimeError, ValueError, TypeError):
+                    refused = True
+                if refused:
+                    w["err"] = "Refused"
+                elif not self.typed:
+                    O[a["c"]].moveTo(O[a["p"]].spatialGrid[a["i"], 0, 0])
             elif n in ("Remove", "RemoveAbsent"):
                 O[a["p"]].remove(O[a["c"]])
             elif n == "RemoveAll":
                 O[a["p"]].removeAll()
             elif n == "SetChildren":
                 O[a["p"]].setChildren([O[x] for x in a["s"]])
+            elif n == "SetChildrenSame":
+                # the very list object the query handed out goes back in
+                O[a["p"]].setChildren(O[a["p"]].getChildren())
             elif n == "MoveTo":
                 c = O[a["c"]]
                 g = c.parent.spatialGrid
@@ -119,29 +183,48 @@ class GenericAdapter:
                 for nid, o_old, o_new in zip(a["ids"], olds, news):
                     O[nid] = o_new
                     w["orig"][nid] = w["orig"][inv[id(o_old)]]
-            else:
+            elif not self.apply_more(w, a):
                 raise AssertionError("unknown action " + n)
         except (RuntimeError, ValueError, TypeError) as ex:
             w["err"] = type(ex).__name__
         return w["err"]
 
+    def apply_more(self, w, a):
+        return False
+
+    def loc_index(self, w, n, sl):
+        """the index the locator carries, as the spec counts it"""
+        if sl is None:
+            return 0
+        if isinstance(sl, self.grids.MultiIndexLocation):
+            return sl[0].i if len(sl) else None
+        if self.kind(w["orig"][n]) == "blk" or (self.typed and self.kind(w["orig"][n]) == "asm"):
+            return getattr(sl, "k", None)  # blocks: axial index in the assembly grid
+        return getattr(sl, "i", None)
+
     def project(self, w):
+        """Aliasing law: ask every query, empty every list a query handed out, ask again.  The second set of answers is
+        compared with the specification; ``stable`` tells whether the two sets agree."""
+        handed = []
+        first = self.observe(w, handed)
+        for lst in handed:
+            if isinstance(lst, list):
+                del lst[:]
+        second = self.observe(w, None)
+        second["stable"] = first == second
+        return second
+
+    def observe(self, w, handed):
         O = w["obj"]
         live = sorted(O)
         ident = {id(v): k for k, v in O.items()}
-
-        def nid(o):
-            if o is None:
-                return 0
-            return ident.get(id(o), -99)
-
         mats = {}
         for k, v in O.items():
             m = getattr(v, "material", None)
             if m is not None:
                 mats[id(m)] = -k
 
-        def nid(o):  # noqa: F811  (materials appear in includeMaterials queries as -<component id>)
+        def nid(o):  # materials appear in includeMaterials queries as -<component id>
             if o is None:
                 return 0
             return ident.get(id(o), mats.get(id(o), -99))
@@ -149,20 +232,21 @@ class GenericAdapter:
         def ids(seq):
             return [nid(o) for o in seq]
 
+        def L(lst):  # a list handed out by a query
+            if handed is not None:
+                handed.append(lst)
+            return lst
+
         A, B = self.A, self.B
         odd = lambda o: w["orig"].get(nid(o), 0) % 2 == 1  # noqa: E731
         par, loc, att, q = [], [], [], []
         for n in live:
             o = O[n]
+            kind = self.kind(w["orig"][n])
             par.append(nid(o.parent))
             sl = o.spatialLocator
             att.append(bool(sl is not None and sl.grid is not None))
-            if isinstance(sl, self.grids.MultiIndexLocation):
-                li = sl[0].i if len(sl) else None
-            elif self.typed and w["orig"][n] <= 1 + self.NBLK:
-                li = getattr(sl, "k", None)  # blocks: axial index in the assembly grid
-            else:
-                li = getattr(sl, "i", None)
+            li = self.loc_index(w, n, sl)
             loc.append(int(li) if li is not None and float(li) == int(li) else repr(li))
             chain = []
             x = o.parent
@@ -170,32 +254,33 @@ class GenericAdapter:
                 chain.append(nid(x))
                 x = x.parent
             ad = o.getAncestorAndDistance(odd)
-            children = ids(o.getChildren())
+            children = ids(L(o.getChildren()))
             alt = [ids(o), ids(o.iterChildren()), ids(o[i] for i in range(len(o)))]
             if any(v != children for v in alt) or [o.index(c) for c in o] != list(range(len(o))):
                 children = {"inconsistent": [children] + alt}
-            deep = ids(o.getChildren(deep=True))
+            deep = ids(L(o.getChildren(deep=True)))
             if ids(o.iterChildren(deep=True)) != deep:
                 deep = {"inconsistent": deep}
             q.append({
                 "children": children,
                 "deep": deep,
-                "gen2": ids(o.getChildren(generationNum=2)),
+                "gen2": ids(L(o.getChildren(generationNum=2))),
                 "gen3": ids(o.iterChildren(generationNum=3)),
-                "leaves": ids(o.getChildren(deep=True, predicate=lambda c: len(c) == 0)),
-                "flagA": ids(o.getChildrenWithFlags(A)),
+                "leaves": ids(L(o.getChildren(deep=True, predicate=lambda c: len(c) == 0))),
+                "flagA": ids(L(o.getChildrenWithFlags(A))),
                 "flagAx": ids(o.iterChildrenWithFlags(A, exactMatch=True)),
-                "flagAB": ids(o.getChildrenWithFlags(A | B)),
-                "flagAorB": ids(o.getChildrenWithFlags([A, B], exactMatch=True)),
+                "flagAB": ids(L(o.getChildrenWithFlags(A | B))),
+                "flagAorB": ids(L(o.getChildrenWithFlags([A, B], exactMatch=True))),
                 "deepB": ids(o.iterChildren(deep=True, predicate=lambda c: c.hasFlags(B))),
-                "type1": ids(o.getChildrenOfType("t1")),
+                # not asked of a reactor: Core and SpentFuelPool have no type-name parameter
+                "type1": [] if kind == "rx" else ids(L(o.getChildrenOfType("t1"))),
                 "anc": chain,
                 "ancB": nid(o.getAncestorWithFlags(B)),
                 "ancBx": nid(o.getAncestorWithFlags(B, exactMatch=True)),
                 "ancAx": nid(o.getAncestorWithFlags(A, exactMatch=True)),
-                "deepMat": ids(o.getChildren(deep=True, includeMaterials=True)),
-                "flagAMat": ids(o.getChildren(includeMaterials=True, predicate=lambda c: c.hasFlags(A))),
-                "gen2Mat": ids(o.getChildren(generationNum=2, includeMaterials=True)),
+                "deepMat": ids(L(o.getChildren(deep=True, includeMaterials=True))),
+                "flagAMat": ids(L(o.getChildren(includeMaterials=True, predicate=lambda c: c.hasFlags(A)))),
+                "gen2Mat": ids(L(o.getChildren(generationNum=2, includeMaterials=True))),
                 "ancOdd": nid(o.parent.getAncestor(odd)) if o.parent is not None else 0,
                 "ancOddS": 0 if ad is None else nid(ad[0]),
                 "ancOddDist": -1 if ad is None else ad[1],
@@ -208,27 +293,32 @@ class GenericAdapter:
             if (o.spatialGrid is None) == owns or (owns and o.spatialGrid.armiObject is not o):
                 q[-1]["gridOwner"] = -97
             q[-1]["comps"] = ids(o.iterComponents())
-            q[-1]["compsA"] = ids(o.getComponents(A))
+            q[-1]["compsA"] = ids(L(o.getComponents(A)))
+            # reactor-level references and traversals (constants for every other kind of object)
+            rxq = {"core": 0, "excore": [], "blocks": [], "blocksA": [], "blocksOdd": [], "firstBlk": 0, "firstAsm": 0,
+                   "asmByLoc": [], "asmAll": []}
+            if kind == "rx":
+                rxq["core"] = nid(o.core)
+                rxq["excore"] = [nid(v) for _k, v in sorted(o.excore.items())]
+            elif kind == "core":
+                rxq["blocks"] = ids(o.iterBlocks())
+                rxq["blocksA"] = ids(o.iterBlocks(A))
+                rxq["blocksOdd"] = ids(o.iterBlocks(predicate=odd))
+                rxq["firstBlk"] = nid(o.getFirstBlock())
+                rxq["firstAsm"] = nid(o.getFirstAssembly()) if len(o) else 0  # documented: assumes at least one assembly
+                rxq["asmByLoc"] = ids(L(o.getAssemblies()))
+                rxq["asmAll"] = ids(L(o.getAssemblies(includeSFP=True)))
+            q[-1].update(rxq)
         out = {"parent": par, "loc": loc, "att": att, "orig": [w["orig"][n] for n in live], "err": w["err"], "q": q}
         if "copyShape" in w:
             out["err"] = w["copyShape"]
         return out
 
-    @staticmethod
-    def _first_odd(w, o, nid):
-        x = o
-        while x is not None:
-            if w["orig"].get(nid(x), 0) % 2 == 1:
-                return nid(x)
-            x = x.parent
-        return 0
-
 
 class TypedAdapter(GenericAdapter):
-    """HexAssembly (orig 1) / HexBlock (2..1+NBLK) / Circle components (the rest)."""
+    """HexAssembly (orig 1) / HexBlock (2..1+NBlk) / component groups (next NGrp, plain composites) / Circle components (the rest)."""
     name = "typed"
     typed = True
-    NBLK = 2
 
     def owns_grid(self, o):
         return o == 1
@@ -237,12 +327,17 @@ class TypedAdapter(GenericAdapter):
         from armi.reactor import assemblies, blocks
         from armi.reactor.components import Circle
 
-        if o == 1:
+        kind = self.kind(o)
+        if kind == "asm":
             x = assemblies.HexAssembly("asm", assemNum=1)
             x.spatialGrid = self.grids.AxialGrid.fromNCells(1)
             x.spatialGrid.armiObject = x
-        elif o <= 1 + self.NBLK:
+        elif kind == "blk":
             x = blocks.HexBlock("blk", height=10.0)
+        elif kind == "grp":
+            # what the blueprints build for a "component group": a plain Composite that holds components
+            # (the subclass only adds the type-name parameter, see _node_class)
+            x = self.Node("grp%d" % o)
         else:
             x = Circle("c%d" % o, "HT9", Tinput=25.0, Thot=25.0, od=float(o), id=0.0, mult=1)
         x.setType(("t1x", "t1", "t2")[o % 3], self.flags_of(o))
@@ -255,14 +350,97 @@ class PinsAdapter(TypedAdapter):
     blkgrid = True
 
     def owns_grid(self, o):
-        return o <= 1 + self.NBLK
+        return self.kind(o) in ("asm", "blk")
 
     def make(self, o):
+        if self.kind(o) == "cmp":
+            # members of a component group are 3-D shapes in armi (a 2-D component takes its height from parent.getHeight(),
+            # which only a block has); the same spheres are also placed directly in blocks
+            from armi.reactor.components import Sphere
+
+            x = Sphere("c%d" % o, "HT9", Tinput=25.0, Thot=25.0, od=float(o), id=0.0, mult=1)
+            x.setType(("t1x", "t1", "t2")[o % 3], self.flags_of(o))
+            return x
         x = TypedAdapter.make(self, o)
-        if 1 < o <= 1 + self.NBLK:
+        if self.kind(o) == "blk":
             x.spatialGrid = self.grids.HexGrid.fromPitch(1.0)
             x.spatialGrid.armiObject = x
         return x
+
+
+class ReactorAdapter(GenericAdapter):
+    """Reactor (orig 1) > Core (2), SpentFuelPool (3) > HexAssembly (4..3+NAsm) > HexBlock (the rest, empty).
+    The initial world is built from the specification's initial state (root variables emitted by TLC): the reactor adds core
+    and pool, every assembly adds its blocks in the listed order -- all through the real add methods."""
+    name = "reactor"
+    rx = True
+
+    def owns_grid(self, o):
+        return self.kind(o) in ("core", "sfp", "asm")
+
+    def make(self, o):
+        from armi.reactor import assemblies, blocks, blueprints, geometry, reactors
+        from armi.reactor.spentFuelPool import SpentFuelPool
+
+        kind = self.kind(o)
+        grids = self.grids
+        if kind == "rx":
+            x = reactors.Reactor("gen", blueprints.Blueprints())
+        elif kind == "core":
+            x = reactors.Core("Core")
+            g = grids.HexGrid.fromPitch(16.0, numRings=4)
+            g.geomType = geometry.GeomType.HEX
+            g.symmetry = str(geometry.SymmetryType(geometry.DomainType.FULL_CORE, geometry.BoundaryType.NO_SYMMETRY))
+            g.armiObject = x
+            x.spatialGrid = g
+            x._trackAssems = True
+        elif kind == "sfp":
+            x = SpentFuelPool("Spent Fuel Pool")
+            g = grids.CartesianGrid.fromRectangle(50.0, 50.0)
+            g.armiObject = x
+            for i in range(self.N + 1):
+                g[i, 0, 0]  # one row, wide enough for every assembly that can exist: the cell index is the column
+            x.spatialGrid = g
+        elif kind == "asm":
+            x = assemblies.HexAssembly("fuel", assemNum=o)
+            x.spatialGrid = grids.AxialGrid.fromNCells(1)
+            x.spatialGrid.armiObject = x
+        else:
+            x = blocks.HexBlock("blk", height=10.0)
+        if kind in ("asm", "blk"):
+            x.setType(("t1x", "t1", "t2")[o % 3], self.flags_of(o))
+        else:
+            x.p.flags = self.flags_of(o)  # Reactor, Core and SpentFuelPool have flags but no type name
+        return x
+
+    def build(self, root):
+        w = GenericAdapter.build(self, root)
+        O = w["obj"]
+        kids = root["kids"]
+        for n in sorted(O):
+            for c in kids[n - 1]:
+                O[n].add(O[c])
+        return w
+
+    def apply_more(self, w, a):
+        O = w["obj"]
+        n = a["n"]
+        if n == "CoreAdd":
+            O[a["k"]].add(O[a["a"]], O[a["k"]].spatialGrid[a["i"], 0, 0])
+        elif n == "Purge":
+            O[a["k"]].removeAssembly(O[a["a"]], discharge=False)
+        elif n == "Discharge":
+            O[a["k"]].removeAssembly(O[a["a"]], discharge=True)
+        elif n == "Swap":
+            x, y = O[a["a"]], O[a["b"]]
+            lx, ly = x.spatialLocator, y.spatialLocator
+            x.moveTo(ly)
+            y.moveTo(lx)
+        elif n == "SortRing":
+            O[a["k"]].sortAssemsByRing()
+        else:
+            return False
+        return True
 
 
 _NODE = None
@@ -306,30 +484,126 @@ def walk(o):
 
 # ------------------------------------------------------------------------------------------------------------
 def key_of(div, fam="generic"):
-    import re
-    return "replay:%s%s:%s" % ("" if fam == "generic" else fam + ":", div["action"]["n"], re.sub(r"\[\d+\]", "", div["first_difference"].split(":")[0]))
+    field = re.sub(r"\[\d+\]", "", div["first_difference"].split(":")[0])
+    return "replay:%s%s:%s%s" % ("" if fam == "generic" else fam + ":", div["action"]["n"], field,
+                                 _shared(div["action"], div.get("expected"), div.get("observed"), div["first_difference"].split(":")[0]))
+
+
+def _ints(x):
+    if isinstance(x, bool):
+        return set()
+    if isinstance(x, int):
+        return {x}
+    if isinstance(x, (list, tuple)):
+        return set().union(*[_ints(v) for v in x]) if x else set()
+    if isinstance(x, dict):
+        return _ints(list(x.values()))
+    return set()
+
+
+def _shared(act, exp, got, path):
+    """key suffix for copies: the value that differs refers to a node that existed BEFORE the copy where the specification
+    expects none of those (the copy shares a node with the original) -- told apart from a reference that is merely missing"""
+    if act.get("n") not in ("DeepCopy", "Pickle") or not isinstance(exp, dict) or not isinstance(got, dict):
+        return ""
+    try:
+        for part in re.findall(r"\.(\w+)|\[(\d+)\]", path):
+            exp, got = (exp[part[0]], got[part[0]]) if part[0] else (exp[int(part[1])], got[int(part[1])])
+    except (KeyError, IndexError, TypeError):
+        return ""
+    new = set(act.get("ids", ()))
+    foreign = {v for v in _ints(got) - _ints(exp) if v > 0 and v not in new}
+    return ":shared" if foreign and _ints(exp) <= new | {0} else ""
 
 
 _SELFTEST = False
 _EMIT_CACHE = {}
 
 FAMILIES = {
-    # name: (adapter class, exhaustive cfg, emission cfg, trace cfg, trace constants (NOrig, N, NLoc))
-    "generic": ("CompositeTree_mc%s.cfg", "CompositeTree_emit%s.cfg", "CompositeTree_trace.cfg", (5, 8, 3)),
-    "typed": ("CompositeTree_typed_mc%s.cfg", "CompositeTree_typed_emit%s.cfg", "CompositeTree_typed_trace.cfg", (5, 8, 1)),
-    "pins": ("CompositeTree_pins_mc%s.cfg", "CompositeTree_pins_emit%s.cfg", "CompositeTree_pins_trace.cfg", (5, 8, 2)),
+    # name: (exhaustive cfg, emission cfg, trace cfg)
+    "generic": ("CompositeTree_mc%s.cfg", "CompositeTree_emit%s.cfg", "CompositeTree_trace.cfg"),
+    "typed": ("CompositeTree_typed_mc%s.cfg", "CompositeTree_typed_emit%s.cfg", "CompositeTree_typed_trace.cfg"),
+    "pins": ("CompositeTree_pins_mc%s.cfg", "CompositeTree_pins_emit%s.cfg", "CompositeTree_pins_trace.cfg"),
+    "reactor": ("CompositeTree_reactor_mc%s.cfg", "CompositeTree_reactor_emit%s.cfg", "CompositeTree_reactor_trace.cfg"),
 }
+# non-vacuity: coverage names of the exhaustive run / action names (with outcome) of the emitted edges that must occur
 ACTIONS = {
-    "generic": ("Add", "AddPresent", "Insert", "InsertPresent", "RemoveChild", "RemoveAbsentWhereItMatters", "SetChildrenAny", "RemoveAll", "MoveTo", "Sort", "Copy"),
-    "typed": ("Add", "AddPresent", "AddWrongType", "Insert", "InsertPresent", "RemoveChild", "RemoveAbsentWhereItMatters", "SetChildrenAny", "RemoveAll", "Sort",
-              "Reestablish", "Copy", "Replace"),
+    "generic": ("Add", "AddPresent", "Insert", "InsertPresent", "RemoveChild", "RemoveAbsentWhereItMatters", "SetChildrenAny", "SetChildrenSame",
+                "RemoveAll", "MoveTo", "Sort", "Copy", "AddAttachedAny", "InsertAttachedAny"),
+    "typed": ("Add", "AddPresent", "AddWrongType", "Insert", "InsertPresent", "RemoveChild", "RemoveAbsentWhereItMatters", "SetChildrenAny",
+              "SetChildrenSame", "RemoveAll", "Sort", "Reestablish", "Copy", "Replace"),
     "pins": ("Add", "AddPresent", "AddWrongType", "Insert", "InsertPresent", "RemoveChild", "RemoveAbsentWhereItMatters", "SetChildrenAny",
-             "RemoveAll", "Sort", "Reestablish", "Copy", "MoveTo"),
+             "SetChildrenSame", "RemoveAll", "Sort", "Reestablish", "Copy", "MoveTo", "AddAttachedAny", "InsertAttachedAny"),
+    "reactor": ("CoreAdd", "Purge", "Discharge", "Swap", "SortRing", "Sort", "Copy"),
 }
+_OWNED = tuple("%s:%s" % (a, o) for a in ATTACHED for o in ("moved", "refused", "stale"))
+EMITTED = {
+    "generic": ("Add", "Insert", "Remove", "SetChildren", "SetChildrenSame", "MoveTo", "Sort", "DeepCopy", "Pickle") + _OWNED,
+    "typed": ("Add", "Insert", "Remove", "SetChildren", "SetChildrenSame", "Sort", "Reestablish", "Replace", "DeepCopy", "Pickle"),
+    "pins": ("Add", "Insert", "Remove", "SetChildren", "SetChildrenSame", "MoveTo", "Sort", "DeepCopy", "Pickle") + _OWNED,
+    "reactor": ("CoreAdd", "Purge", "Discharge", "Swap", "SortRing", "Sort", "DeepCopy", "Pickle"),
+}
+_CLASSES = {"typed": TypedAdapter, "pins": PinsAdapter, "reactor": ReactorAdapter}
 
 
-def adapter(fam):
-    return {"typed": TypedAdapter, "pins": PinsAdapter}.get(fam, GenericAdapter)()
+def adapter(fam, consts=None):
+    return _CLASSES.get(fam, GenericAdapter)(consts)
+
+
+def act_label(a):
+    return a["n"] + (":" + a["out"] if a.get("out") else "")
+
+
+def _distance(exp, got):
+    """number of leaves of the expected observation the projection does not reproduce (which emitted outcome is closest)"""
+    if isinstance(exp, dict):
+        return sum(_distance(v, got.get(k) if isinstance(got, dict) else None) for k, v in exp.items())
+    if isinstance(exp, list) and exp and isinstance(exp[0], dict):
+        return sum(_distance(v, got[i] if isinstance(got, list) and i < len(got) else None) for i, v in enumerate(exp))
+    return 0 if rp.diff(exp, got) is None else 1
+
+
+def replay_owned(graph, owned, ad, fam):
+    """(state, add/insert of an already-owned object): one group per call, judged against the outcomes the spec emitted.
+    ``graph`` supplies the paths (it holds no such call, so no path runs through one); ``owned`` are the emitted edges of these calls.
+    Returns (n_groups, n_conforming, findings) with findings = [(key, what, payload)]."""
+    groups = {}
+    for e in owned:
+        call = {k: v for k, v in e["act"].items() if k != "out"}
+        groups.setdefault((rp.skey(e["from"]), rp.skey(call)), {})[e["act"]["out"]] = e
+    n = ok = 0
+    findings = []
+    for (fk, _call), alts in groups.items():
+        pre = graph.path.get(fk)
+        if pre is None or "moved" not in alts or "refused" not in alts:
+            continue
+        n += 1
+        root = pre[0]["from"] if pre else alts["moved"]["from"]
+        divs = {}
+        for out in ("moved", "refused", "stale"):
+            if out in alts:
+                divs[out] = rp.run_behaviour(ad, root, pre + [alts[out]], check_from=len(pre))
+                if divs[out] is None:
+                    break
+        if divs.get("moved") is None or divs.get("refused") is None:
+            ok += 1  # one of the two outcomes the specification allows
+            continue
+        name = alts["moved"]["act"]["n"]
+        pfx = "replay:%s%s" % ("" if fam == "generic" else fam + ":", name)
+        if "stale" in divs and divs["stale"] is None:
+            d = divs["moved"]
+            findings.append((pfx + ":stale", "real %s objects: %s of an object that another parent still lists neither moves it nor refuses: "
+                             "the former parent keeps listing it (vs. the 'moved' outcome: %s)" % (fam, name, d["first_difference"]),
+                             dict(d, direction="replay", adapter=fam, consts=ad.consts)))
+            continue
+        # neither allowed nor the known deviation: name the field that differs from the closest outcome
+        got = divs["moved"].get("observed", {})
+        base = min(divs, key=lambda out: (_distance(alts[out]["obs"], got), out))
+        d = divs[base]
+        field = re.sub(r"\[\d+\]", "", d["first_difference"].split(":")[0])
+        findings.append(("%s~%s:%s" % (pfx, base, field), "real %s objects diverge from every outcome of %s (closest: %s): %s" % (
+            fam, json.dumps(d["action"]), base, d["first_difference"]), dict(d, direction="replay", adapter=fam, consts=ad.consts)))
+    return n, ok, findings
 
 
 def run(rep, tier, seed):
@@ -338,24 +612,48 @@ def run(rep, tier, seed):
     tlc.sany("CompositeTree_mc", MODDIR)
     tlc.sany("CompositeTree_trace", MODDIR)
     rep.exhaustive = True
-    for fam, (mcfg, ecfg, tcfg, tconst) in FAMILIES.items():
+    # every TLC run is a process of its own: the exhaustive runs and the emission runs of the four families are started together
+    # (the exhaustive ones share the cores), each family's replay starts when its emission has finished, and each trace
+    # validation runs while the next family is replayed.  Results are reported in a fixed order.
+    pool = ThreadPoolExecutor(max_workers=8)
+    mcw = max(2, common.NCPU // 4)
+    mc_jobs, emit_jobs, trace_jobs = {}, {}, {}
+    for fam, (mcfg, ecfg, tcfg) in FAMILIES.items():
         mcfg, ecfg = mcfg % suffix, ecfg % suffix
-        # 1. exhaustive model checking of the design (all invariants / action properties, coverage)
         if not _SELFTEST:
-            res = tlc.run("CompositeTree_mc", mcfg, MODDIR, want_prints=False, timeout=3000)
-            rep.add_tlc("exhaustive:" + mcfg, res)
-            if res.violation:
-                rep.violation("tlc:" + res.violation["name"], "TLC: %s violated in the specification" % res.violation["name"],
-                              {"direction": "tlc", "trace": res.violation["trace"][:20000]})
-            never = [a for a in ACTIONS[fam] if res.coverage.get(a, (0, 0))[1] == 0]
-            if never:
-                raise tlc.MachineryError("vacuous: actions never taken in %s: %s" % (mcfg, never))
+            mc_jobs[fam] = pool.submit(tlc.run, "CompositeTree_mc", mcfg, MODDIR, workers=mcw, want_prints=False, timeout=3000)
+        if ecfg not in _EMIT_CACHE:
+            emit_jobs[fam] = pool.submit(tlc.run, "CompositeTree_mc", ecfg, MODDIR, workers=1, coverage=False, timeout=3000)
+    try:
+        _run_families(rep, thorough, suffix, seed, pool, mc_jobs, emit_jobs, trace_jobs)
+    finally:
+        pool.shutdown(wait=True, cancel_futures=True)
+    rep.assume(
+        "legal edits only: add/insert/setChildren receive objects that are not ancestors of the new parent; add/insert of an object that "
+        "another parent still lists has its own actions (AddAttached/InsertAttached: must move the object or refuse)",
+        "deep order = children of the node first, then each child's expansion (documented getChildren(deep=True) order)",
+        "generic family: each object owns a CartesianGrid; Add = add ; moveTo(parent.spatialGrid[i,0,0])",
+        "typed family: HexAssembly > HexBlock > Circle; Assembly.add places and re-indexes blocks, Assembly.insert places at the index",
+        "pins family: blocks carry a pin lattice and may hold a component group (plain Composite of components) next to components; the "
+        "components are Spheres (group members are 3-D shapes in armi) and a group that sits in a block is never left empty (GroupsFilled: "
+        "Block.remove divides by the total area of the remaining children)",
+        "reactor family: Reactor > {Core, SpentFuelPool} > HexAssembly > empty HexBlock; assembly tracking on; iterBlocks/getFirstBlock/"
+        "getFirstAssembly follow child order, getAssemblies() is compared with the LOCATION-sorted child list it documents",
+        "a list handed out by a query is emptied by the harness and every query is asked again before the answers are compared",
+    )
 
+
+def _run_families(rep, thorough, suffix, seed, pool, mc_jobs, emit_jobs, trace_jobs):
+    drivers = {}
+    for fam, (mcfg, ecfg, tcfg) in FAMILIES.items():
+        mcfg, ecfg = mcfg % suffix, ecfg % suffix
         # 2. spec -> code: every explored edge of the emission config, executed on real objects
         if ecfg not in _EMIT_CACHE:
-            _EMIT_CACHE[ecfg] = tlc.run("CompositeTree_mc", ecfg, MODDIR, workers=1, coverage=False, timeout=3000)
+            _EMIT_CACHE[ecfg] = emit_jobs[fam].result()
         eres = _EMIT_CACHE[ecfg]
-        rep.add_tlc("edges:" + ecfg, eres)
+        if eres.violation:
+            rep.violation("tlc:" + eres.violation["name"], "TLC: %s violated in the specification (%s)" % (eres.violation["name"], ecfg),
+                          {"direction": "tlc", "trace": eres.violation["trace"][:20000]})
         obs = {rp.skey(p["st"]): p["obs"] for p in eres.prints if isinstance(p, dict) and "st" in p}
         edges = [p for p in eres.prints if isinstance(p, dict) and "act" in p]
         for e in edges:
@@ -366,57 +664,104 @@ def run(rep, tier, seed):
             o["err"] = e["err"]
             e["obs"] = o
         edges = [e for e in edges if "obs" in e]
-        g = rp.Graph(edges)
-        ad = adapter(fam)
-        n, nt, divs = rp.replay_graph(g, ad, max_edges=None, rng=random.Random(seed))
+        seen = {act_label(e["act"]) for e in edges}
+        missing = [a for a in EMITTED[fam] if a not in seen]
+        if missing:
+            raise tlc.MachineryError("vacuous: actions never emitted by %s: %s" % (ecfg, missing))
+        # paths never run through an add/insert of an already-owned object (real objects are left broken by it today): the
+        # graph that supplies the paths holds the other edges only; a state reachable only through such a call is not replayed
+        owned = [e for e in edges if e["act"]["n"] in ATTACHED]
+        g = rp.Graph([e for e in edges if e["act"]["n"] not in ATTACHED])
+        ad = adapter(fam, cfg_constants(ecfg))
+        # reactor family: the projection is compared after EVERY step of a path, so that a divergence is reported at the step
+        # that causes it and not again under every action that follows it
+        n, nt, divs = rp.replay_graph(g, ad, max_edges=None, rng=random.Random(seed), check_prefix=ad.rx)
         if n == 0:
             raise tlc.MachineryError("no edges replayed for " + fam)
-        rep.add_replay(fam + "-edges", n, nt,
-                       "every edge (s,a,t) of TLC's state graph is executed as path(s);a on fresh armi objects (%s family); "
-                       "non-trivial = the edge changes the abstract state" % fam)
         for d in divs:
             rep.violation(key_of(d, fam), "real %s objects diverge from CompositeTree after %s: %s" % (
-                fam, json.dumps(d["action"]), d["first_difference"]), dict(d, direction="replay", adapter=fam))
+                fam, json.dumps(d["action"]), d["first_difference"]), dict(d, direction="replay", adapter=fam, consts=ad.consts))
+        no, oko, found = replay_owned(g, owned, ad, fam)
+        for key, what, payload in found:
+            rep.violation(key, what, payload)
+        rep.add_replay(fam + "-edges", n + no, nt + no,
+                       "every edge (s,a,t) of TLC's state graph is executed as path(s);a on fresh armi objects (%s family); "
+                       "non-trivial = the edge changes the abstract state; add/insert of an already-owned object: one behaviour per "
+                       "(state, call), compared with every outcome the specification emitted" % fam)
+        if no:
+            rep.extra.setdefault("owned", {})[fam] = {"calls": no, "conforming_to_an_allowed_outcome": oko}
         if g.edges:
             e = g.edges[len(g.edges) // 2]
             rep.sample({"kind": "edge", "family": fam, "path": [s["act"] for s in g.path[e["_fk"]]], "act": e["act"],
                         "expected_obs": e["obs"]})
 
         # 3. code -> spec: random long edit histories on bigger trees, validated by TLC against CompositeTree_trace
+        tconsts = cfg_constants(tcfg)
+        tad = adapter(fam, tconsts)
         ntr = 400 if thorough else 80
-        traces = tracecheck_driver(ad, ntr, 40 if thorough else 25, seed, tconst)
-        bad, stats = tracecheck.validate("CompositeTree_trace", tcfg, MODDIR, traces, timeout=3000)
+        root0 = next(iter(g.roots.values()))["from"] if g.roots else None
+        traces = tracecheck_driver(tad, ntr, 40 if thorough else 25, seed, tconsts, root0)
+        drivers[fam] = traces
+        trace_jobs[fam] = pool.submit(tracecheck.validate, "CompositeTree_trace", tcfg, MODDIR, traces, timeout=3000)
+
+    for fam, (mcfg, ecfg, tcfg) in FAMILIES.items():
+        mcfg, ecfg = mcfg % suffix, ecfg % suffix
+        # 1. exhaustive model checking of the design (all invariants / action properties, coverage)
+        if fam in mc_jobs:
+            res = mc_jobs[fam].result()
+            rep.add_tlc("exhaustive:" + mcfg, res)
+            if res.violation:
+                rep.violation("tlc:" + res.violation["name"], "TLC: %s violated in the specification" % res.violation["name"],
+                              {"direction": "tlc", "trace": res.violation["trace"][:20000]})
+            never = [a for a in ACTIONS[fam] if res.coverage.get(a, (0, 0))[1] == 0]
+            if never and not res.violation:
+                raise tlc.MachineryError("vacuous: actions never taken in %s: %s" % (mcfg, never))
+        rep.add_tlc("edges:" + ecfg, _EMIT_CACHE[ecfg])
+        traces = drivers[fam]
+        bad, stats = trace_jobs[fam].result()
         rep.add_tlc("trace-validation:" + fam, stats["tlc"])
         rep.add_traces(fam + "-random-edit-histories", len(traces), sum(len(t["ev"]) for t in traces),
-                       "seeded random edit histories on 8-node forests run on real objects; every event (op, args, full "
+                       "seeded random edit histories on small forests / reactors run on real objects; every event (op, args, full "
                        "projected post-state incl. all query results) must be a step of CompositeTree")
         rep.sample({"kind": "trace", "family": fam, "id": traces[0]["id"], "events": traces[0]["ev"][:2]})
+        byid = {t["id"]: t for t in traces}
         for b in bad:
             ev = b["trace"]["ev"]
             k = b["matched"]
             nxt = ev[k] if k < len(ev) else {}
-            rep.violation("trace:%s:%s" % (fam, nxt.get("a", {}).get("n", b.get("invariant", "?"))),
+            suffix_ = ""
+            exp_ = (b.get("mismatch") or {}).get("expected")
+            if isinstance(exp_, dict) and isinstance(nxt.get("post"), dict):
+                d_ = rp.diff(exp_, nxt["post"])
+                suffix_ = _shared(nxt.get("a", {}), exp_, nxt["post"], d_.split(":")[0]) if d_ else ""
+            rep.violation("trace:%s:%s%s" % (fam, nxt.get("a", {}).get("n", b.get("invariant", "?")), suffix_),
                           "recorded history is not a behaviour of CompositeTree at event %d (%s) %s" % (
                               k + 1, json.dumps(nxt.get("a")), json.dumps(b.get("mismatch", ""))[:600]),
                           {"direction": "trace", "family": fam, "trace": b["trace"], "matched": k, "tlc": b.get("tlc")})
-    rep.assume(
-        "legal edits only: add/insert/setChildren receive detached roots that are not ancestors of the new parent",
-        "deep order = children of the node first, then each child's expansion (documented getChildren(deep=True) order)",
-        "generic family: each object owns a CartesianGrid; Add = add ; moveTo(parent.spatialGrid[i,0,0])",
-        "typed family: HexAssembly > HexBlock > Circle; Assembly.add places and re-indexes blocks, Assembly.insert places at the index",
-    )
+        # events that TLC could only match with the known deviation ("stale" outcome of add/insert of an already-owned object)
+        for p in stats["tlc"].prints:
+            if isinstance(p, dict) and "deviant" in p:
+                rep.violation("trace:%s:%s:stale" % (fam, p["n"]),
+                              "recorded history %s, event %d: %s of an object that another parent still lists neither moved it nor "
+                              "refused -- the former parent keeps listing it" % (p["deviant"], p["at"], p["n"]),
+                              {"direction": "trace", "family": fam, "trace": byid.get(p["deviant"]), "matched": p["at"] - 1})
 
 
-def tracecheck_driver(ad, ntraces, nev, seed, tconst):
-    """Random legal+illegal edits on real objects; log op + projected post-state."""
+def tracecheck_driver(ad, ntraces, nev, seed, consts, root0=None):
+    """Random legal+illegal edits on real objects; log op + projected post-state.  Every fourth history ENDS with an add / insert
+    of an object that another parent still lists (terminal: see the module header)."""
     rng = random.Random(seed * 7919 + 1)
     traces = []
-    NO, N, NL = tconst
+    NO, N, NL = consts["NOrig"], consts["N"], consts["NLoc"]
+    owned_ok = bool(consts.get("WithOwned"))
     for t in range(ntraces):
-        w = ad.build({"live": list(range(1, NO + 1))})
+        root = dict(root0) if ad.rx else {}
+        root["live"] = list(range(1, NO + 1))
+        w = ad.build(root)
         ev = []
-        for _ in range(nev):
-            a = random_action(ad, w, rng, N, NL)
+        plan = [None] * nev + ([ATTACHED[(t // 4) % 2]] if owned_ok and t % 4 == 3 else [])
+        for forced in plan:
+            a = random_action(ad, w, rng, N, NL, forced)
             if a is None:
                 continue
             try:
@@ -429,28 +774,29 @@ def tracecheck_driver(ad, ntraces, nev, seed, tconst):
     return traces
 
 
-def random_action(ad, w, rng, N, NL):
+def random_action(ad, w, rng, N, NL, forced=None):
     O = w["obj"]
     live = sorted(O)
     typed = ad.typed
-    kinds = ["Add", "Add", "Insert", "Insert", "Remove", "RemoveAll", "SetChildren", "Sort",
-             "DeepCopy", "Pickle", "AddPresent", "InsertPresent", "RemoveAbsent"]
-    pins = getattr(ad, "blkgrid", False)
-    kinds += (["Reestablish", "Reestablish", "AddWrongType", "Add", "Insert", "Insert"] + (["MoveTo", "MoveTo"] if pins else ["Replace"])) if typed else ["MoveTo"]
-    kind = rng.choice(kinds)
 
     def kind_of(n):
-        o = w["orig"][n]
-        return "gen" if not typed else "asm" if o == 1 else "blk" if o <= 1 + ad.NBLK else "cmp"
-
-    def fits(p, c):
-        return not typed or (kind_of(p), kind_of(c)) in (("asm", "blk"), ("blk", "cmp"))
+        return ad.kind(w["orig"][n])
 
     # the driver's own bookkeeping comes from the child lists only (never from .parent, which is under test)
     owner = {}
     for m in live:
         for k in O[m]:
             owner[id(k)] = O[m]
+    if ad.rx:
+        return random_rx_action(ad, w, rng, N, NL, owner, kind_of)
+    kinds = ["Add", "Add", "Insert", "Insert", "Remove", "RemoveAll", "SetChildren", "SetChildrenSame", "Sort",
+             "DeepCopy", "Pickle", "AddPresent", "InsertPresent", "RemoveAbsent"]
+    pins = getattr(ad, "blkgrid", False)
+    kinds += (["Reestablish", "Reestablish", "AddWrongType", "Add", "Insert", "Insert"] + (["MoveTo", "MoveTo"] if pins else ["Replace"])) if typed else ["MoveTo"]
+    kind = forced or rng.choice(kinds)
+
+    def fits(p, c):
+        return not typed or (kind_of(p), kind_of(c)) in (("asm", "blk"), ("blk", "cmp"), ("blk", "grp"), ("grp", "cmp"))
 
     def anc_self(n):
         out = []
@@ -463,10 +809,29 @@ def random_action(ad, w, rng, N, NL):
     def can_take(p, c):
         return id(O[c]) not in owner and id(O[c]) not in anc_self(p) and fits(p, c)
 
+    def last_of_group(c):
+        """domain (GroupsFilled in the spec): a component group that sits in a block is never emptied"""
+        g = owner.get(id(O[c]))
+        return g is not None and not _is_component(g) and type(g) is ad.Node and typed and id(g) in owner and len(g) == 1
+
+    def empty_group(c):
+        return typed and kind_of(c) == "grp" and len(O[c]) == 0
+
     p = rng.choice(live)
     kids = [k for k in live if owner.get(id(O[k])) is O[p]]
+    in_block = typed and kind_of(p) == "grp" and id(O[p]) in owner
+    if kind in ATTACHED:
+        pairs = [(q, c) for q in live for c in live if id(O[c]) in owner and owner[id(O[c])] is not O[q]
+                 and id(O[c]) not in anc_self(q) and fits(q, c) and not last_of_group(c)]
+        if not pairs:
+            return None
+        q, c = rng.choice(pairs)
+        a = {"n": kind, "p": q, "c": c, "i": rng.randrange(NL) if not typed else 0}
+        if kind == "InsertAttached":
+            a["k"] = rng.randrange(len(O[q]) + 1)
+        return a
     if kind in ("Add", "Insert"):
-        cs = [c for c in live if can_take(p, c)]
+        cs = [c for c in live if can_take(p, c) and not empty_group(c)]
         if not cs:
             return None
         c = rng.choice(cs)
@@ -474,17 +839,17 @@ def random_action(ad, w, rng, N, NL):
             return {"n": "Add", "p": p, "c": c, "i": rng.randrange(NL)}
         return {"n": "Insert", "p": p, "k": rng.randrange(len(kids) + 1), "c": c, "i": rng.randrange(NL)}
     if kind == "AddWrongType":
-        cs = [c for c in live if kind_of(p) == "asm" and kind_of(c) == "cmp" and id(O[c]) not in owner]
+        cs = [c for c in live if kind_of(p) == "asm" and kind_of(c) in ("cmp", "grp") and id(O[c]) not in owner]
         return {"n": kind, "p": p, "c": rng.choice(cs)} if cs else None
     if kind in ("Remove", "AddPresent", "InsertPresent"):
-        if not kids:
+        if not kids or (kind == "Remove" and in_block and len(kids) == 1):
             return None
         return {"n": kind, "p": p, "c": rng.choice(kids)}
     if kind == "RemoveAbsent":
         cs = [c for c in live if c != p and c not in kids]
         return {"n": kind, "p": p, "c": rng.choice(cs)} if cs else None
-    if kind == "RemoveAll":
-        return {"n": kind, "p": p} if kids else None
+    if kind in ("RemoveAll", "SetChildrenSame"):
+        return {"n": kind, "p": p} if kids and not (kind == "RemoveAll" and in_block) else None
     if kind == "Replace":
         bs = [b for b in live if kind_of(b) == "blk"]
         if len(bs) < 2:
@@ -496,11 +861,13 @@ def random_action(ad, w, rng, N, NL):
     if kind == "Reestablish":
         return {"n": kind, "p": p} if kids and kind_of(p) == "asm" else None
     if kind == "SetChildren":
-        cand = [c for c in live if c in kids or can_take(p, c)]
+        cand = [c for c in live if (c in kids or can_take(p, c)) and not empty_group(c)]
         rng.shuffle(cand)
-        return {"n": kind, "p": p, "s": cand[: rng.randrange(0, 4)]}
+        s = cand[: rng.randrange(0, 4)]
+        return {"n": kind, "p": p, "s": s} if s or not in_block else None
     if kind == "MoveTo":
-        cs = [c for c in live if id(O[c]) in owner and O[c].parent is owner[id(O[c])] and (not typed or kind_of(c) == "cmp")]
+        cs = [c for c in live if id(O[c]) in owner and O[c].parent is owner[id(O[c])] and (not typed or kind_of(c) == "cmp")
+              and owner[id(O[c])].spatialGrid is not None]
         if not cs:
             return None
         c = rng.choice(cs)
@@ -509,9 +876,15 @@ def random_action(ad, w, rng, N, NL):
         i = rng.choice([i for i in range(NL) if i != cur])  # spec: enabled iff loc # i or not attached
         return {"n": kind, "c": c, "i": i}
     if kind == "Sort":
+        inv = {id(v): n for n, v in O.items()}
         for x in walk(O[p]):
             if len(x) >= 2 and any(k.spatialLocator.grid is None and len(k) + 1 and not _is_component(k) for k in x):
                 return None
+            if len(x) >= 2 and ad.NGRP:
+                # domain (Sortable in the spec): Spheres can only be ordered by outer diameter; no mixed component / group siblings
+                comps = [w["orig"][inv[id(k)]] for k in x if _is_component(k)]
+                if 0 < len(comps) < len(x) or len(set(comps)) < len(comps):
+                    return None
         return {"n": kind, "p": p} if kids else None
     if kind in ("DeepCopy", "Pickle"):
         size = len(walk(O[p]))
@@ -522,6 +895,43 @@ def random_action(ad, w, rng, N, NL):
     return None
 
 
+def random_rx_action(ad, w, rng, N, NL, owner, kind_of):
+    """reactor family: Core.add at any free cell, purge, discharge, two assemblies trading places, sorts, copies"""
+    O = w["obj"]
+    live = sorted(O)
+    kind = rng.choice(["CoreAdd"] * 4 + ["Purge", "Discharge", "Discharge", "Swap", "Swap", "Swap", "SortRing", "Sort", "DeepCopy", "Pickle"])
+    cores = [k for k in live if kind_of(k) == "core" and id(O[k]) in owner]
+    if kind in ("DeepCopy", "Pickle"):
+        xs = [x for x in live if kind_of(x) in ("rx", "core")]
+        x = rng.choice(xs)
+        size = len(walk(O[x]))
+        free = [i for i in range(1, N + 1) if i not in O]
+        return {"n": kind, "x": x, "ids": free[:size]} if size <= len(free) else None
+    if not cores:
+        return None
+    k = rng.choice(cores)
+    inv = {id(v): n for n, v in O.items()}
+    kids = [inv[id(c)] for c in O[k]]
+    if kind == "CoreAdd":
+        pools = [x for x in owner[id(O[k])] if kind_of(inv[id(x)]) == "sfp"]
+        names = {w["orig"][c] for c in kids} | {w["orig"][inv[id(c)]] for s in pools for c in s}
+        cs = [a for a in live if kind_of(a) == "asm" and id(O[a]) not in owner and w["orig"][a] not in names]
+        cells = [i for i in range(NL) if all(O[c].spatialLocator.i != i for c in kids)]
+        return {"n": kind, "k": k, "a": rng.choice(cs), "i": rng.choice(cells)} if cs and cells else None
+    if kind in ("Purge", "Discharge"):
+        return {"n": kind, "k": k, "a": rng.choice(kids)} if kids else None
+    if kind == "Swap":
+        if len(kids) < 2:
+            return None
+        a, b = sorted(rng.sample(kids, 2))
+        return {"n": kind, "k": k, "a": a, "b": b}
+    if kind == "SortRing":
+        return {"n": kind, "k": k} if len(kids) >= 2 else None
+    if kind == "Sort":
+        return {"n": kind, "p": k} if kids else None
+    return None
+
+
 def _is_component(o):
     from armi.reactor.components import Component
 
@@ -529,7 +939,7 @@ def _is_component(o):
 
 
 def replay(payload):
-    ad = adapter(payload.get("adapter", "generic"))
+    ad = adapter(payload.get("adapter", payload.get("family", "generic")), payload.get("consts"))
     if payload.get("direction") == "replay":
         steps = [{"act": a, "obs": {}} for a in payload["behaviour"]]
         steps[-1]["obs"] = payload["expected"]
@@ -673,8 +1083,49 @@ def selftest():
     def of_type_substring(self, typeName):
         return self.iterChildren(predicate=lambda o: typeName in o.getType())
 
+    from armi.reactor import cores, excoreStructure
+
+    orig_getchildren = C.getChildren
+
+    def getchildren_live(self, deep=False, generationNum=1, includeMaterials=False, predicate=None):
+        if not (deep or includeMaterials) and generationNum == 1 and predicate is None:
+            return self._children
+        return orig_getchildren(self, deep=deep, generationNum=generationNum, includeMaterials=includeMaterials, predicate=predicate)
+
+    def excore_deepcopy_shallow_items(self, memo):
+        memo[id(self)] = newE = self.__class__.__new__(self.__class__)
+        newE.__setstate__(copy.deepcopy(self.__getstate__(), memo))
+        newE.update(self)
+        return newE
+
+    def iterblocks_by_location(self, typeSpec=None, exact=False, predicate=None):
+        ok = lambda b: (typeSpec is None or b.hasFlags(typeSpec, exact=exact)) and (predicate is None or predicate(b))  # noqa: E731
+        return (b for a in self.getAssemblies() for b in a if ok(b))
+
+    def block_iter_stops_at_children(self, deep, generationNum, checker):
+        if deep or generationNum == 1:
+            yield from filter(checker, self)
+
+    def coordinate_detached_is_self(self):
+        return self
+
+    def add_owned_keeps_old_parent(self, obj):
+        # only differs from HEAD for an object that another parent still lists: listed by the new parent, parent pointer untouched
+        if obj in self:
+            raise RuntimeError("present")
+        if obj.parent is None:
+            obj.parent = self
+        self._children.append(obj)
+
     P = patched
     mutants = [
+        ("seed3-1 getChildren() hands out the live child list", lambda: P(C, "getChildren", getchildren_live)),
+        ("seed3-2 ExcoreCollection.__deepcopy__ re-uses the original's structures", lambda: P(excoreStructure.ExcoreCollection, "__deepcopy__", excore_deepcopy_shallow_items)),
+        ("seed3-3 CoordinateLocation.detachedCopy returns self", lambda: P(locations.CoordinateLocation, "detachedCopy", coordinate_detached_is_self)),
+        ("seed3-4 Core.iterBlocks walks the location-sorted assemblies", lambda: P(cores.Core, "iterBlocks", iterblocks_by_location)),
+        ("seed3-5 Block._iterChildren stops at the block's direct children", lambda: P(blocks.Block, "_iterChildren", block_iter_stops_at_children)),
+        # a DIFFERENT failure of add(already-owned object) must not hide behind the key of the known one (...:stale)
+        ("Composite.add of an already-owned object does not even set its parent", lambda: P(C, "add", add_owned_keeps_old_parent)),
         ("Composite.insert at/after the end appends without setting the parent", lambda: P(C, "insert", insert_fastpath)),
         ("Block.__deepcopy__ shares the pin lattice with the original", lambda: P(blocks.Block, "__deepcopy__", block_deepcopy_shares_grid)),
         ("iterChildrenWithFlags ORs a list of candidate flags into one", lambda: P(composites.ArmiObject, "iterChildrenWithFlags", flags_merged)),
